@@ -10,7 +10,11 @@ use crate::prng::Rng;
 use crate::rm::decide::{Stage, Verdict};
 use crate::run::{finish, preflight, Ctx, Report, Tally, Tier};
 
-const CT_FORM: [&[u8]; 8] = [
+const CT_FORM: [&[u8]; 12] = [
+    b"application/x-www-form-urlencoded; Charset=UTF-8",
+    b"application/x-www-form-urlencoded;CHARSET=utf-8",
+    b"  application/x-www-form-urlencoded",
+    b"application/x-www-form-urlencoded; q=0.5;charset=utf8;x=y",
     b"application/x-www-form-urlencoded",
     b"application/x-www-form-urlencoded; charset=utf-8",
     b"application/x-www-form-urlencoded;charset=UTF-8",
@@ -32,7 +36,10 @@ const CT_OTHER: [&[u8]; 10] = [
     b"application/x-www-form",
     b"x-www-form-urlencoded",
 ];
-const CT_SILENT: [&[u8]; 4] = [
+const CT_SILENT: [&[u8]; 7] = [
+    b"application/x-www-form-urlencoded; charset=utf-8; charset=zz-second",
+    b"application/x-www-form-urlencoded; charset =utf-8",
+    b"application/x-www-form-urlencoded; charset= utf-8",
     b"Application/X-WWW-Form-Urlencoded",
     b"application/x-www-form-urlencoded; charset=iso-8859-1",
     b"application/x-www-form-urlencoded; charset=\"utf-8\"",
@@ -291,7 +298,7 @@ fn bom_bodies(seed: u64, shard: u64, n: u64) -> Tally {
         l.method = "POST".into();
         l.body.clear();
         l.form_pairs = None;
-        l.content_type = Some(r.pick(&CT_FORM[..4]).to_vec());
+        l.content_type = Some(r.pick(&CT_FORM[..8]).to_vec());
         let present = crate::gen::present_header_names(&l);
         l.signed.retain(|s| present.contains(s));
         let (name, body, valid_utf8) = bodies[(i as usize) % bodies.len()];
